@@ -68,24 +68,53 @@ func hashLists() (nss []string, lists [][]string) {
 			}
 		}
 	}
-	return []string{"", "ns", "a"}, lists
+	// inputs that coincide once joined with a separator: [a b] vs [a/b], [a, b] ...
+	seps := []string{"/", ",", " ", "|", "\x00", ":", "-"}
+	for _, sp := range seps {
+		lists = append(lists, []string{"a" + sp + "b"}, []string{"a" + sp, "b"}, []string{"a", sp + "b"}, []string{"a", sp, "b"}, []string{sp}, []string{sp, sp}, []string{sp + sp})
+	}
+	return []string{"", "ns", "a", "ns/a", "ns/"}, lists
 }
 
-func hashDump() string {
-	var sb strings.Builder
+// hashDump computes every hash in list order (or in reverse order) and prints them in list order:
+// a value that depends on what was hashed earlier shows up as a difference between the two.
+func hashDumpOrder(reverse bool) string {
 	nss, lists := hashLists()
-	for _, ns := range nss {
-		for _, l := range lists {
-			h := id62.NewHash(ns, l...)
+	type key struct{ i, j int }
+	vals := map[key]id62.UUID{}
+	var order []key
+	for i := range nss {
+		for j := range lists {
+			order = append(order, key{i, j})
+		}
+	}
+	if reverse {
+		for a, b := 0, len(order)-1; a < b; a, b = a+1, b-1 {
+			order[a], order[b] = order[b], order[a]
+		}
+	}
+	for _, k := range order {
+		vals[k] = id62.NewHash(nss[k.i], lists[k.j]...)
+	}
+	var sb strings.Builder
+	for i := range nss {
+		for j := range lists {
+			h := vals[key{i, j}]
 			fmt.Fprintf(&sb, "%x\n", h[:])
 		}
 	}
 	return sb.String()
 }
 
+func hashDump() string { return hashDumpOrder(false) }
+
 func main() {
 	if len(os.Args) > 1 && os.Args[1] == "--hashdump" {
 		fmt.Print(hashDump())
+		return
+	}
+	if len(os.Args) > 1 && os.Args[1] == "--hashdump-reverse" {
+		fmt.Print(hashDumpOrder(true))
 		return
 	}
 	vk.Main(&vk.Check{
@@ -101,7 +130,7 @@ func main() {
 			"powers_of_62":       "62^k, 62^k±1, k<=21",
 			"string_alphabet":    "0 9 A Z a z + - _ space é NUL",
 			"string_max_len":     "3 (quick), 4 (thorough); plus every 1-character substitution / insertion / deletion in 4 rendered identifiers over 14 (quick) / 130 (thorough) characters",
-			"hash_inputs":        "namespaces × input lists over {\"\",a,b,ab} up to 3 inputs",
+			"hash_inputs":        "5 namespaces x input lists over {\"\",a,b,ab} up to 3 inputs plus lists that coincide once joined with one of 7 separators; computed in list order and in reverse order in fresh processes",
 		},
 		Isolate: false,
 		Run:     run,
@@ -372,6 +401,23 @@ func run(r *vk.Runner) {
 			if string(out) != hashDump() {
 				t.Violation("hash-not-pure-across-processes", "NewHash values differ between two processes", nil, nil, nil)
 			}
+		}
+		// history: the same calls made in the opposite order, in a fresh process
+		rev, err := exec.Command(exe, "--hashdump-reverse").Output()
+		if err != nil {
+			panic(err)
+		}
+		t.Steps(len(nss) * len(lists))
+		if string(rev) != hashDump() {
+			fw, rv := strings.Split(hashDump(), "\n"), strings.Split(string(rev), "\n")
+			where := ""
+			for i := range fw {
+				if i < len(rv) && fw[i] != rv[i] {
+					where = fmt.Sprintf("NewHash(%q, %q)", nss[i/len(lists)], lists[i%len(lists)])
+					break
+				}
+			}
+			t.Violation("hash-depends-on-earlier-calls", "NewHash values depend on which other inputs were hashed earlier in the process: first difference at "+where, where, nil, nil)
 		}
 	})
 	for _, ns := range nss {
